@@ -284,3 +284,53 @@ var targets = []Target{
 	{Func: "Relayer.canClose", Out: "relayCanClose", File: "GenRelayFwd", Params: "(is_nil : bool) (pending : Z)", Ret: "bool",
 		Hints: map[string]string{"r == nil": "is_nil", "r.countPending()": "pending"}},
 }
+
+// C17 -- the options path (context_builder.go, retry.go) and the error classification
+// (retry.go, errors.go) over the record / error-shape extension of records.go.
+var errShapeAsserts = map[string][2]string{
+	"SystemError": {"g_is_sys", "g_as_sys"},
+	"net.Error":   {"g_is_net", "g_as_net"},
+}
+
+var errShapeMethods = map[string]string{
+	"method:SystemError.Code":    "SystemError_Code",
+	"method:SystemError.Wrapped": "SystemError_Wrapped",
+}
+
+func init() {
+	targets = append(targets, []Target{
+		// context_builder.go: the builder's RetryOptions field is the state variable cb_RetryOptions
+		{Func: "ContextBuilder.SetRetryOptions", Out: "cbSetRetryOptions", File: "GenRetryOpts", Soft: true, Panics: true,
+			Params: "(cb_RetryOptions : option RetryOptions) (retryOptions : option RetryOptions)", Ret: "option (option RetryOptions)",
+			LVals: map[string]string{"cb.RetryOptions": "cb_RetryOptions"}, Hints: map[string]string{"cb": "cb_RetryOptions"}},
+		{Func: "ContextBuilder.SetTimeoutPerAttempt", Out: "cbSetTimeoutPerAttempt", File: "GenRetryOpts", Soft: true, Panics: true,
+			Params: "(cb_RetryOptions : option RetryOptions) (timeoutPerAttempt : Z)", Ret: "option (option RetryOptions)",
+			LVals: map[string]string{"cb.RetryOptions": "cb_RetryOptions"}, Hints: map[string]string{"cb": "cb_RetryOptions"}},
+		// Build: what the context parameters receive as retryOptions
+		{Func: "ContextBuilder.Build", Out: "cbBuildRetryOptions", File: "GenRetryOpts", Soft: true, KeyVal: "retryOptions",
+			Params: "(cb_RetryOptions : option RetryOptions)", Ret: "option RetryOptions",
+			LVals: map[string]string{"cb.RetryOptions": "cb_RetryOptions"}},
+		// retry.go getRetryOptions: has_params = the context carries tchannel parameters
+		{Func: "getRetryOptions", Out: "getRetryOptions", File: "GenRetryOpts", Soft: true, Panics: true,
+			Params: "(has_params : bool) (params_retryOptions : option RetryOptions)", Ret: "option (option RetryOptions)",
+			LVals: map[string]string{"params.retryOptions": "params_retryOptions"},
+			Hints: map[string]string{"params == nil": "(negb has_params)", "defaultRetryOptions": "(Some v_defaultRetryOptions)",
+				"defaultRetryOptions.MaxAttempts": "(RetryOptions_MaxAttempts v_defaultRetryOptions)"},
+			SHints: map[string]string{"params := getTChannelParams(ctx)": ""}},
+		// errors.go / retry.go over error shapes (Base/GoErr.v)
+		{Func: "SystemError.Code", Out: "SystemError_Code", File: "GenRetryErr", Soft: true, Params: "(se : gsys)", Ret: "Z",
+			Hints: map[string]string{"se.code": "(gs_code se)"}},
+		{Func: "SystemError.Wrapped", Out: "SystemError_Wrapped", File: "GenRetryErr", Soft: true, Params: "(se : gsys)", Ret: "gerr",
+			Hints: map[string]string{"se.wrapped": "(gs_wrapped se)"}},
+		{Func: "GetSystemErrorCode", Out: "GetSystemErrorCodeS", File: "GenRetryErr", Soft: true, Params: "(err : gerr)", Ret: "Z",
+			Asserts: errShapeAsserts, ErrNil: "g_is_nil", Hints: errShapeMethods},
+		{Func: "isNetError", Out: "isNetErrorS", File: "GenRetryErr", Soft: true, Params: "(err : gerr)", Ret: "bool",
+			Asserts: errShapeAsserts, ErrNil: "g_is_nil", Hints: errShapeMethods},
+		{Func: "getErrCode", Out: "getErrCodeS", File: "GenRetryErr", Soft: true, Params: "(err : gerr)", Ret: "Z",
+			Asserts: errShapeAsserts, ErrNil: "g_is_nil",
+			Hints: merge(errShapeMethods, map[string]string{"call:GetSystemErrorCode": "GetSystemErrorCodeS", "call:isNetError": "isNetErrorS"})},
+		{Func: "RetryOn.CanRetry", Out: "CanRetryS", File: "GenRetryErr", Soft: true, Params: "(r : Z) (err : gerr)", Ret: "bool",
+			Asserts: errShapeAsserts, ErrNil: "g_is_nil",
+			Hints: merge(errShapeMethods, map[string]string{"call:getErrCode": "getErrCodeS"})},
+	}...)
+}
